@@ -28,6 +28,9 @@ type Case struct {
 	Sizes   []int  `json:"sizes"` // initial messages (body line counts)
 	Steps   []Step `json:"steps"`
 	End     string `json:"end"` // quit | drop
+	// Login is how the session spells the mailbox in USER/APOP ("" = "box"): any spelling the
+	// naming rule maps to "box" opens the same mailbox.
+	Login string `json:"login,omitempty"`
 }
 
 type smsg struct {
@@ -87,7 +90,7 @@ var stepGen = rapid.Custom(func(t *rapid.T) Step {
 
 var prop = hx.Prop[Case]{
 	ID: pid, Name: "session",
-	Rule: "mailbox of 0-8 messages on mem/file; 1-40 steps from a grammar of USER/PASS/APOP in any order and arity, STAT, LIST/UIDL/DELE/" +
+	Rule: "mailbox of 0-8 messages on mem/file; 1-40 steps from a grammar of USER/PASS/APOP in any order and arity (the mailbox spelled box, Box, box+pop, box@a.test ...), STAT, LIST/UIDL/DELE/" +
 		"RETR/TOP with valid, repeated, deleted, out-of-range, negative, huge, non-numeric, extra and missing arguments, RSET, NOOP, CAPA, " +
 		"STLS, unknown verbs, empty lines, interleaved with external deliveries/removals through the store; ends with QUIT or a dropped " +
 		"connection; oracle = reference model of the login snapshot and deletion marks (STAT/LIST/UIDL agree, numbers/sizes/ids fixed, RSET " +
@@ -99,6 +102,7 @@ var prop = hx.Prop[Case]{
 			Backend: rapid.SampledFrom([]string{"mem", "file"}).Draw(t, "backend"),
 			Sizes:   rapid.SliceOfN(rapid.IntRange(0, 6), rapid.SampledFrom([]int{0, 2, 3, 3}).Draw(t, "minmsgs"), 8).Draw(t, "sizes"),
 			End:     rapid.SampledFrom([]string{"quit", "quit", "drop", "quitdrop"}).Draw(t, "end"),
+			Login:   rapid.SampledFrom([]string{"", "", "", "Box", "BOX", "box+pop", "box@a.test", "bOx+a+b@A.Test"}).Draw(t, "loginname"),
 		}
 		// most sessions log in early
 		if rapid.IntRange(0, 4).Draw(t, "login") > 0 {
@@ -120,6 +124,20 @@ var prop = hx.Prop[Case]{
 		return c
 	},
 	Run: run,
+}
+
+// refBox is the documented (local naming) mailbox of a login name: the local part, lower-cased,
+// cut at the first '+'.
+func refBox(login string) string {
+	l := login
+	if i := strings.LastIndexByte(l, '@'); i >= 0 {
+		l = l[:i]
+	}
+	l = strings.ToLower(l)
+	if i := strings.IndexByte(l, '+'); i >= 0 {
+		l = l[:i]
+	}
+	return l
 }
 
 func deliver(st storage.Store, box string, body []byte) (smsg, error) {
@@ -217,6 +235,13 @@ func run(c Case) *hx.Outcome {
 			_, _ = deliver(w.Store, "elsewhere", bodyOf(1))
 			continue
 		}
+		if c.Login != "" {
+			if f := strings.Split(st.Line, " "); len(f) >= 2 && f[1] == "box" && (strings.EqualFold(f[0], "USER") || strings.EqualFold(f[0], "APOP")) {
+				f[1] = c.Login
+				st.Line = strings.Join(f, " ")
+				where = fmt.Sprintf("step %d %s %q", i, st.K, st.Line)
+			}
+		}
 		f := strings.Split(st.Line, " ")
 		verb := strings.ToUpper(f[0])
 		args := f[1:]
@@ -275,7 +300,7 @@ func run(c Case) *hx.Outcome {
 			case "STAT", "LIST", "UIDL", "DELE", "RETR", "TOP", "RSET":
 				expectOK(false, "transaction command before login")
 			}
-			if trans && user != "box" {
+			if trans && refBox(user) != "box" {
 				// logged into another mailbox: content is that mailbox's (empty)
 				snap, marked = nil, nil
 			}
@@ -421,7 +446,7 @@ func run(c Case) *hx.Outcome {
 	var want []smsg
 	for _, m := range content {
 		del := false
-		if committed && user == "box" {
+		if committed && refBox(user) == "box" {
 			for j, s := range snap {
 				if s.uid == m.uid && marked[j] {
 					del = true
